@@ -61,7 +61,7 @@ def main():
             dst = os.path.join(VERIF, "controls", name)
             os.makedirs(dst, exist_ok=True)
             for f in ("patch.diff", "equiv.py"):
-                if os.path.exists(os.path.join(d, f)):
+                if os.path.exists(os.path.join(d, f)) and os.path.abspath(os.path.join(d, f)) != os.path.abspath(os.path.join(dst, f)):
                     shutil.copy(os.path.join(d, f), os.path.join(dst, f))
             meta["evaluated_by_lead"] = {k: v for k, v in out.items() if k != "dir"}
             json.dump(meta, open(os.path.join(dst, "meta.json"), "w"), indent=1)
